@@ -165,6 +165,12 @@ def to_class(field, exp, got, sp):
     return str(got)[:40]
 
 
+def interface_keywords(irj):
+    """docstring section keywords (of any style) mentioned as prose anywhere in the interface: its own description, a parameter's, the return entry's"""
+    texts = [irj.get("doc")] + [p.get("doc") for _, p in irj["params"]] + [(irj.get("returns") or {}).get("doc")]
+    return "+".join(sorted({k for t in texts for k in G.keywords_in(t)}))
+
+
 def emitted_docstring(real):
     """the docstring text of the re-read emitted node (None when there is none)"""
     for st in (real.get("reparsed") or {}).get("body", [])[:1]:
@@ -212,7 +218,7 @@ def oracle(fmt, cfg, irj, got_irj, issues=(), in_domain=False, doc_text=None):
     for e, c in issues:
         iss.setdefault(e, set()).add(c)
     base = {"format": fmt, "style": cfg["style"], "style_group": "rest" if cfg["style"] == "rest" else "google/numpydoc", "edd": cfg["edd"],
-            "ta": cfg.get("type_annotations"), "kw": cfg.get("kw_only"), "in_domain": in_domain}
+            "ta": cfg.get("type_annotations"), "kw": cfg.get("kw_only"), "in_domain": in_domain, "keywords": interface_keywords(irj)}
 
     def layer(entry_name, field):
         cl = set(iss.get(entry_name, set()))
@@ -243,7 +249,8 @@ def oracle(fmt, cfg, irj, got_irj, issues=(), in_domain=False, doc_text=None):
         shape = announcement_shape(doc_text if cfg["style"] == "rest" else None, e[0], entry == "return")[0]
         for field, i in (("typ", 1), ("default", 2), ("doc", 3)):
             if e[i] != g[i]:
-                sig = dict(base, entry=entry, field=field, announcement=shape, typ_kind=typ_kind(sp.get("typ")), has_bracket="[" in (sp.get("typ") or ""),
+                sig = dict(base, entry=entry, field=field, announcement=shape, entry_keywords="+".join(G.keywords_in(sp.get("doc"))),
+                           quote=G.quote_shape(sp["default"]["v"]) if (sp.get("default") or {}).get("t") == "str" else "none", typ_kind=typ_kind(sp.get("typ")), has_bracket="[" in (sp.get("typ") or ""),
                            default_kind=default_kind(sp.get("default")), to=to_class(field, e[i], g[i], sp), **default_flags(sp.get("default")), **layer(e[0], field))
                 out.append((sig, "%s %s: %s came back as %r, expected %r (typ %r, default %s)" % (entry, e[0], field, g[i], e[i], sp.get("typ"), tv(sp.get("default")))))
     return out
@@ -487,6 +494,8 @@ def evaluate(chk, rec, sig_counts, witness_of=None):
         rp = rec["irj"].get("returns") or {}
         sig = {"format": f, "style": c["style"], "style_group": "rest" if c["style"] == "rest" else "google/numpydoc", "edd": c["edd"],
                "ta": c.get("type_annotations"), "kw": c.get("kw_only"), "in_domain": in_dom, "field": "raises", "stage": stage, "exc": exc,
+               "keywords": interface_keywords(rec["irj"]),
+               "quotes": "+".join(sorted({G.quote_shape(p["default"]["v"]) for _, p in rec["irj"]["params"] if (p.get("default") or {}).get("t") == "str"} - {"none"})),
                "layer": "docstring" if doc_caused else "format", "return_default_kind": default_kind(rp.get("default")),
                "return_typ_kind": typ_kind(rp.get("typ")) if rec["irj"].get("returns") else "no-return",
                "default_kinds": "+".join(sorted({default_kind(p.get("default")) for _, p in rec["irj"]["params"]}))}
